@@ -551,3 +551,199 @@ CONCRETE["e2e:C20"] = {
              "loop points' coarse and fine parts), one CDDA image; printed `key: value` lines compared with the model",
     "timeout_s": 60.0, "budget_quick": 120, "budget_thorough": 900,
 }
+
+
+# ================================================================================== C04 every export is a well-formed RIFF/WAVE
+def _build_c04(inputs):
+    L = _lib()
+
+    def run():
+        files = []
+        for i, hv in enumerate(inputs["headers"]):
+            f = _sample(f"S{i:03d}", hv.get("words", 40), 500 + i, loops=hv.get("loops"),
+                        extra={k: hv[k] for k in ("pitch", "semi", "cents", "loop_type", "rate") if k in hv})
+            files.append(f)
+        if inputs.get("stereo"):
+            files += [_sample("ST -L", 33, 1), _sample("ST -R", 35, 2)]
+        model = expand_akai({"partitions": [{"volumes": [_vol("V", files)]}]})
+        raw = L.aw.build_akai_image(model)
+        with L.Workdir() as w:
+            img = w.file("img.akai", raw)
+            out = w.sub("out")
+            stdout, err = L.do_export(img, out)
+            return {"files": L.read_tree(out), "stdout": stdout, "error": type(err).__name__ if err else None}
+    return {"call": run, "env": {}}
+
+
+def _oracle_c04(inputs, kind, val, env):
+    L = _lib()
+    if kind != "return":
+        return []
+    bad = []
+    reported = set(L.exported_lines(val["stdout"]))
+    for path, data in val["files"].items():
+        if path not in reported:
+            continue          # a file the tool did not report (export aborted while writing it) is outside the statement
+        info, probs = L.wav_info(data)
+        if info is None or probs:
+            bad.append(f"well-formed-riff-wave({path}: {probs[:3]})")
+    if not reported and not val["error"]:
+        bad.append("nothing-exported")
+    return bad
+
+
+def _small_c04(tier, seed, shard=(0, 1)):
+    import random
+    rnd = random.Random(9000 + seed)
+    cases = []
+    step = 4 if tier == "quick" else 1
+    for dim, rng in (("pitch", range(0, 256, step)), ("semi", range(-128, 128, step)), ("cents", range(-128, 128, step))):
+        vals = list(rng)
+        for k in range(0, len(vals), 2):
+            cases.append({"headers": [{dim: v} for v in vals[k:k + 2]]})
+    corner = [0, 1, 2, 0x7FFFFFFF, 0xFFFFFFFF]
+    for lt in (0, 1, 2, 3):
+        hs = []
+        for at in corner:
+            for dur in (0, 1, 9998, 9999, 65535):
+                hs.append({"loop_type": lt, "loops": [{"at": at, "fine": rnd.randint(0, 65535), "coarse": rnd.choice(corner), "duration": dur}] * rnd.randint(1, 8)})
+        for k in range(0, len(hs), 12):
+            cases.append({"headers": hs[k:k + 12], "stereo": k == 0})
+    for _ in range(4 if tier == "quick" else 60):
+        cases.append({"headers": [{"pitch": rnd.randint(0, 255), "semi": rnd.randint(-128, 127), "cents": rnd.randint(-128, 127),
+                                   "rate": rnd.choice((0, 1, 8000, 44100, 65535)), "loop_type": rnd.randint(0, 3), "words": rnd.randint(0, 50),
+                                   "loops": [{"at": rnd.randint(0, 60), "fine": 0, "coarse": rnd.randint(0, 60), "duration": rnd.choice((0, 5, 9999))}
+                                             for _ in range(rnd.randint(0, 8))]} for _ in range(10)], "stereo": True})
+    for k, c in enumerate(cases):
+        if k % shard[1] == shard[0]:
+            yield c
+
+
+@contract("e2e:C04", props=["C04"], abstract=True)
+def _c04(c):
+    pass
+
+
+CONCRETE["e2e:C04"] = {
+    "build": _build_c04, "small": _small_c04, "oracle": _oracle_c04, "shards": 8,
+    "nontrivial": lambda i, s: s["kind"] == "return",
+    "bound": "AKAI images whose samples sweep the root-key byte, the semitone byte and the cents byte (each over its whole range in the thorough "
+             "tier, every 4th value quick), loop-table corner values (0, 1, 2, 2^31-1, 2^32-1; durations 0/1/9998/9999/65535; 1..8 entries) for "
+             "each loop type, random headers, mono and an L/R pair of unequal length; every reported file parsed by the independent RIFF parser",
+    "timeout_s": 120.0, "budget_quick": 200, "budget_thorough": 1200,
+}
+
+
+# ================================================================================== C13 termination under corruption
+def _build_c13(inputs):
+    L = _lib()
+
+    def run():
+        kind = inputs["kind"]
+        with L.Workdir() as w:
+            if kind == "random":
+                import random
+                rnd = random.Random(inputs["seed"])
+                p = w.file("junk.bin", bytes(rnd.randrange(256) for _ in range(inputs["size"])))
+                paths = ["", "A:", "x/y"]
+            elif kind == "akai":
+                raw, lay = L.aw.build_akai_image_ex(expand_akai(_base_akai()))
+                b = bytearray(raw)
+                for (off, val, width) in inputs["patch"]:
+                    b[off:off + width] = int(val).to_bytes(width, "little")
+                p = w.file("img.akai", bytes(b))
+                paths = ["", "A:", "A:/VOL A", "A:/VOL A/LONG", "B:/LAST/X1"]
+            elif kind == "roland":
+                raw, lay = L.rw.build_roland_image_ex(expand_roland(_base_roland()))
+                b = bytearray(raw)
+                for (off, val, width) in inputs["patch"]:
+                    b[off:off + width] = int(val).to_bytes(width, "little")
+                p = w.file("img.s7xx", bytes(b))
+                paths = ["", "V1", "V1/P1", "V1/P1/S0", "_Orphan_perf"]
+            else:
+                d = w.sub("cd")
+                with open(os.path.join(d, "img.bin"), "wb") as f:
+                    f.write(bytes(2352 * 6 + 3))
+                p = os.path.join(d, "img.cue")
+                with open(p, "w") as f:
+                    f.write(inputs["cue"])
+                paths = ["", "T1", "zzz"]
+            outcomes = []
+            for path in paths:
+                o, e = L.do_ls(p, path)
+                outcomes.append(type(e).__name__ if e else "ok")
+            o, e = L.do_export(p, w.sub("out"))
+            outcomes.append(type(e).__name__ if e else "ok")
+            return outcomes
+    return {"call": run, "env": {}}
+
+
+def _small_c13(tier, seed, shard=(0, 1)):
+    import random
+    rnd = random.Random(12000 + seed)
+    cases = []
+    for size in (0, 1, 100, 8192, 24574, 100000):
+        for s in range(2 if tier == "quick" else 10):
+            cases.append({"kind": "random", "size": size, "seed": s + size})
+    # AKAI: SAT words of partition 0 (sectors 0..40) set to every special value and to in-range links
+    SAT0 = 1802
+    specials = [0x0000, 0x4000, 0x8000, 0xC000]
+    used = list(range(0, 26)) + [31]
+    for s in used:
+        vals = specials + [s, 3, max(0, s - 1), s + 1, 9, 20, 22, 11385, 11386, 0xFFFF]
+        if tier == "quick":
+            vals = rnd.sample(vals, 4)
+        for v in vals:
+            cases.append({"kind": "akai", "patch": [[SAT0 + 2 * s, v, 2]]})
+    # header size, volume entry type/start
+    for off, width in ((0, 2), (202 + 12, 2), (202 + 14, 2), (202 + 16 + 14, 2)):
+        for v in (0, 1, 3, 0x7FFF, 0xFFFF, 5, 9):
+            cases.append({"kind": "akai", "patch": [[off, v, width]]})
+    for _ in range(20 if tier == "quick" else 300):
+        cases.append({"kind": "akai", "patch": [[rnd.randrange(0, 26 * 8192), rnd.randrange(256), 1] for _ in range(rnd.randint(1, 5))]})
+    # Roland: FAT words of the used clusters, counts, directory entries, parameter pointers
+    FAT = 0x80800
+    for c in (0, 1, 2, 3, 4, 5, 6, 0xFFF0, 0xFFFE, 0xFFFF):
+        for v in ([0, 1, 0xFFF7, 0xFFF8, 0xFFFF, c, 3, 5, 2] if tier != "quick" else rnd.sample([0, 1, 0xFFF7, 0xFFF8, c, 3, 5, 2], 3)):
+            cases.append({"kind": "roland", "patch": [[FAT + 2 * c, v, 2]]})
+    for off in (276, 278, 280, 282, 284):
+        for v in (0, 1, 0x7FFF, 0xFFFF):
+            cases.append({"kind": "roland", "patch": [[off, v, 2]]})
+    areas = [0xa0800, 0xa1800, 0xa5800, 0xad800, 0xcd800, 0x10d800, 0x115800, 0x155800, 0x1d5800, 0x255800]
+    for _ in range(20 if tier == "quick" else 300):
+        cases.append({"kind": "roland", "patch": [[rnd.choice(areas) + rnd.randrange(0, 0x80), rnd.randrange(256), 1] for _ in range(rnd.randint(1, 4))]})
+    # cue sheets: corrupted lines
+    base = ['FILE "img.bin" BINARY', '  TRACK 01 AUDIO', '    TITLE "T1"', '    INDEX 01 00:00:00', '  TRACK 02 AUDIO', '    INDEX 01 00:00:02']
+    junk = ["", "TRACK", "TRACK 99", "INDEX 01 99:99:99", "INDEX 01 00:00", 'FILE "img.bin" BINARY', "TRACK 03 MODE1/2352", "\t", 'TITLE "', "INDEX 00 00:00:05",
+            "TRACK 02 " + "AUDIO" * 12 + "_", "INDEX 01 " + "9" * 40 + ":00:00"]
+    for _ in range(25 if tier == "quick" else 300):
+        lines = list(base)
+        for _k in range(rnd.randint(1, 3)):
+            op = rnd.choice(("del", "ins", "rep"))
+            i = rnd.randrange(len(lines)) if lines else 0
+            if op == "del" and lines:
+                del lines[i]
+            elif op == "ins":
+                lines.insert(i, rnd.choice(junk))
+            elif lines:
+                lines[i] = rnd.choice(junk)
+        cases.append({"kind": "cdda", "cue": "\n".join(lines) + "\n"})
+    for k, c in enumerate(cases):
+        if k % shard[1] == shard[0]:
+            yield c
+
+
+@contract("e2e:C13", props=["C13"], abstract=True)
+def _c13(c):
+    pass
+
+
+CONCRETE["e2e:C13"] = {
+    "build": _build_c13, "small": _small_c13, "shards": 8,
+    "nontrivial": lambda i, s: s["kind"] == "return",
+    "bound": "ls at 3..5 levels and export, each under a 20 s CPU alarm and a 6 GiB address-space limit, on: random byte files of 6 sizes; an AKAI "
+             "image with each SAT word of the used region set to every special value and to in-range / out-of-range links, header and volume-entry "
+             "fields, random byte damage; a Roland image with FAT words, counts, directory and parameter bytes damaged; cue sheets with "
+             "deleted / inserted / replaced lines incl. pathological tokens",
+    "timeout_s": 20.0, "budget_quick": 280, "budget_thorough": 1500,
+}
